@@ -285,7 +285,11 @@ func (g *Gen) Expr(ty Ty, d int) *Expr {
 			}
 			return Bin(op, TInt, l, rt)
 		case k < 8 && g.Calls:
-			switch r.Intn(4) {
+			switch r.Intn(5) {
+			case 4:
+				// member of a method result: T.Ptr(0, x).X
+				return &Expr{Op: "member", Ty: TInt, GK: int(reflect.Int64), Fn: "X",
+					L: CallE(tool(), "Ptr", TAny, reflect.Ptr, LitI(0), g.arg(TInt, d-1))}
 			case 0:
 				return CallE(tool(), "Add3", TInt, reflect.Int64, g.arg(TInt, d-1), g.arg(TInt, d-1), g.arg(TInt, d-1))
 			case 1:
@@ -514,7 +518,7 @@ func (g *Gen) arg(ty Ty, d int) *Expr {
 // argOK: the expression's dynamic Go kind is the canonical one of its family.
 func argOK(e *Expr) bool {
 	switch e.Op {
-	case "var", "call":
+	case "var", "call", "member":
 		k := reflect.Kind(e.GK)
 		switch e.Ty {
 		case TInt:
